@@ -106,6 +106,94 @@ def run_pair(kind, d1, d2, take1, interleave):
     return out
 
 
+def run_duplex(kind, leading, runtime):
+    """the hand-over stream is a duplex channel: while one task is parked in `read()` on the (quiet) live connection, another
+    task's `write()` still reaches the socket at once; afterwards the parked read gets what the server then sends"""
+    import anyio
+    import httpcore
+    head = b"HTTP/1.1 101 Switching Protocols\r\nUpgrade: websocket\r\n\r\n" if kind == "101" else b"HTTP/1.1 200 Connection established\r\n\r\n"
+    out = {"outcome": "pending", "written_while_read_parked": None, "read_got": None}
+
+    class S(httpcore.AsyncNetworkStream):
+        def __init__(self):
+            self.inbox = [head + leading]
+            self.ev = anyio.Event()
+            self.written = bytearray()
+            self.parked = False
+
+        async def read(self, n, timeout=None):
+            while not self.inbox:
+                self.parked = True
+                self.ev = anyio.Event()
+                await self.ev.wait()
+            self.parked = False
+            d = self.inbox.pop(0)
+            if len(d) > n:
+                self.inbox.insert(0, d[n:])
+                d = d[:n]
+            return d
+
+        async def write(self, b, timeout=None):
+            self.written += b
+
+        async def aclose(self):
+            self.inbox.append(b"")
+            self.ev.set()
+
+        def get_extra_info(self, k):
+            return None
+
+    class B(httpcore.AsyncNetworkBackend):
+        def __init__(self):
+            self.s = S()
+
+        async def connect_tcp(self, *a, **k):
+            return self.s
+
+        async def sleep(self, s):
+            await anyio.sleep(s)
+
+    async def main():
+        be = B()
+        async with httpcore.AsyncConnectionPool(network_backend=be) as pool:
+            if kind == "101":
+                cm = pool.stream("GET", "http://example.com/ws", headers=[("Connection", "upgrade"), ("Upgrade", "websocket")])
+            else:
+                cm = pool.stream("CONNECT", httpcore.URL(scheme=b"http", host=b"example.com", port=80, target=b"target.example:443"))
+            async with cm as resp:
+                ns = resp.extensions["network_stream"]
+                got = bytearray()
+                while len(got) < len(leading):
+                    got += await ns.read(max_bytes=65536, timeout=5)
+                mark = len(be.s.written)
+
+                async def reader():
+                    out["read_got"] = bytes(await ns.read(max_bytes=100, timeout=None))
+
+                async with anyio.create_task_group() as tg:
+                    tg.start_soon(reader)
+                    for _ in range(50):
+                        await anyio.sleep(0)
+                        if be.s.parked:
+                            break
+                    with anyio.move_on_after(1.0) as sc:
+                        await ns.write(b"PING", timeout=5)
+                    out["written_while_read_parked"] = (not sc.cancelled_caught) and bytes(be.s.written[mark:]) == b"PING" and be.s.parked
+                    be.s.inbox.append(b"PONG")
+                    be.s.ev.set()
+                    with anyio.move_on_after(2.0):
+                        while out["read_got"] is None:
+                            await anyio.sleep(0.01)
+                    tg.cancel_scope.cancel()
+            out["outcome"] = "complete" if bytes(got) == leading else "leading-data-wrong"
+    try:
+        anyio.run(main, backend=runtime)
+    except BaseException as e:  # noqa
+        out["outcome"] = "error:" + type(e).__name__
+        out["exc"] = repr(e)[:200]
+    return out
+
+
 def run(ctx, driver):
     rng = ctx.rng
     dist = collections.Counter()
@@ -160,6 +248,17 @@ def run(ctx, driver):
     for payload in pair_fails[:2]:
         path = core.write_replay(ctx, f"fail_{core.digest(payload)}", dict(payload, oracle_clause="bytes-lost-or-reordered"))
         ctx.violations.append({"clause": "bytes-lost-or-reordered", "replay": path})
+    # duplex: a write while another task is parked in read()
+    for i, (kind, rt) in enumerate([("101", "asyncio"), ("connect", "asyncio"), ("101", "trio"), ("connect", "trio")] * (1 if ctx.quick else 10)):
+        leading = bytes(rng.randrange(256) for _ in range(rng.choice([0, 3, 40])))
+        o = run_duplex(kind, leading, rt)
+        dist["duplex:" + o["outcome"]] += 1
+        distinct.add(("duplex", kind, rt, leading))
+        if o["outcome"] != "complete" or not o["written_while_read_parked"] or o["read_got"] != b"PONG":
+            payload = {"property": ID, "kind": kind, "runtime": rt, "leading": leading.hex(), "result": {k: repr(v) for k, v in o.items()}}
+            path = core.write_replay(ctx, f"fail_{core.digest(payload)}", dict(payload, oracle_clause="write-not-passed-through"))
+            if sum(1 for v in ctx.violations if v["clause"] == "write-not-passed-through") < 2:
+                ctx.violations.append({"clause": "write-not-passed-through", "replay": path})
     # a read returns at most READ_NUM_BYTES: pre-split so model and implementation see the same reads
     cases = [(k, h, d, [s[i:i + 65536] for s in segs for i in range(0, len(s), 65536)], m) for k, h, d, segs, m in cases]
     lines = []
